@@ -331,6 +331,12 @@ def _set_path(root, path, val):
 def cex_from_trace(trace):
     ins = {}
     for st in trace:
+        if st.get('stepType') == 'function-call':
+            fn = (st.get('function') or {})
+            ident = fn.get('identifier') or fn.get('displayName') or ''
+            if re.match(r'^F\d+_', ident):
+                break           # entry values only: writes the extracted code makes through pointers into vp_in* are not inputs
+            continue
         if st.get('stepType') != 'assignment':
             continue
         lhs = st.get('lhs', '')
